@@ -106,6 +106,11 @@ func applyLayoutToProgram(prog *ast.Program) *fail.Error {
 
 	layoutProg.IsLayout = true
 
+	// the components used in the layout file belong to the layout
+	if err := applyComponentToProgram(layoutProg, layoutAbsPath); err != nil {
+		return err
+	}
+
 	layoutErr := layoutProg.ApplyInserts(prog.Inserts, layoutAbsPath)
 	if layoutErr != nil {
 		return layoutErr
